@@ -45,7 +45,7 @@ CHECKS = {
                  "after every step and in full at the end. Non-trivial = a key whose latest value moved between layers "
                  "(dirty/cache/db) across a commit or reopen, or a revert with >=2 live snapshots; distinct = hash of the "
                  "operation history."),
-        "assumptions": ["empty value and absent value are not distinguished (nil == \"\")",
+        "assumptions": ["a zero-length value is 'no value' in every layer (exists flag and prefix queries are compared exactly)",
                         "a key written with the non-journaled AddState after a snapshot is unspecified after reverting to it",
                         "reopen happens at block boundaries only (uncommitted in-block writes are lost by design)"],
         "quick": [T("TestC13", 8, 1200, steps=50)],
